@@ -9,4 +9,6 @@ Next == \/ (~done /\ Len(tape) < L /\ \E c \in 0..(C - 1) : tape' = Append(tape,
         \/ (~done /\ Len(tape) = L /\ done' = TRUE /\ tape' = tape)
 G == JText(tape, D)
 Out == done => PrintT(<<"REPLAY", ToJson([tape |-> tape, text |-> G.txt, node |-> G.node])>>)
+\* the boundary family is printed once, from the initial state
+OutBoundary == (tape = <<>> /\ ~done) => \A i \in 1..Len(JBoundary) : PrintT(<<"REPLAY", ToJson([tape |-> <<i>>, text |-> JBoundary[i].txt, node |-> JBoundary[i].node])>>)
 =========================================================================
